@@ -197,7 +197,7 @@ def run_property(pid, prop, tier, seed, known, t0):
         path = write_replay({"property": pid, "obligation": None, "check": bv["check"], "what": bv["what"], "input": bv["input"],
                              "signature": bv["signature"]})
         lines.append(f"VIOLATION property={pid} replay={path} bounded-check={bv['check']} {bv['what'][:160]}")
-        if len(lines) > 12:
+        if len(lines) >= 4:
             break
 
     for l in known_lines:
